@@ -68,6 +68,12 @@ def special_scenarios():
         evs = [(0, ("made",)), (G, ("call", 0))] + [(G * (3 + j), ("call", 1 + j)) for j in range(len(prios))]
         out.append({"lifo": False, "mode": False, "cmds": cmds, "events": evs, "plan": [{"lat": 0, "fail": False, "echo": None, "rply": None}],
                     "default_plan": {"lat": 0, "fail": False, "echo": 2 * G, "rply": None}})
+    # k commands are answered promptly, THEN one gets no echo at all: its waits must still double from wherever the exponent stands
+    for k_ok, k_lost_first in ((1, False), (3, False), (5, False), (2, True)):
+        cmds = [{"kind": "rq30c9", "idx": i, "prio": 0, "max_retries": 3, "timeout": 20_000_000, "wfr": False} for i in range(k_ok + 1 + (1 if k_lost_first else 0))]
+        plan = ([{"lat": 0, "fail": False, "echo": None, "rply": None}] * 4 if k_lost_first else []) + [{"lat": 0, "fail": False, "echo": 2 * G, "rply": None}] * k_ok
+        evs = [(0, ("made",))] + [(G * (1 + 600 * j), ("call", j)) for j in range(len(cmds))]
+        out.append({"lifo": False, "mode": False, "cmds": cmds, "events": evs, "plan": plan, "default_plan": {"lat": 0, "fail": False, "echo": None, "rply": None}})
     # echo and reply of the command in flight arrive in the SAME loop iteration while another command waits in the buffer; then silence
     for wfr, n in ((True, 2), (True, 3), (False, 2)):
         out.append({"lifo": False, "mode": False,
@@ -229,6 +235,19 @@ def oracle(ctx: Ctx, pid: str, s, tr, st, qs, info) -> None:
                     if (b - a) not in (500_000, 1_000_000, 2_000_000, 4_000_000):
                         ctx.violation("backoff-wait-out-of-range", "the wait before a retransmission is not 0.5 s x 2^k with k <= 3",
                                       {**case, "cmd": i, "wait_us": b - a}, "schedule")
+        # ... and each unanswered attempt doubles the wait (up to 8x), wherever the exponent stood when the command started: the n-th frame
+        # written gets the n-th entry of the transport's plan, so a command none of whose frames is echoed has waited for its echo each time
+        if not slow and not any(p["fail"] for p in s["plan"]) and not any(ev[0] in ("rx", "lost") for _, ev in s["events"]):
+            order = [e for e in tr if e[0] == 1]
+            plan_of = {(e[1], e[2], k): (s["plan"][k] if k < len(s["plan"]) else s["default_plan"]) for k, e in enumerate(order)}
+            for i, w in writes.items():
+                mine = [p for (t, c, k), p in plan_of.items() if c == i]
+                if len(w) >= 3 and all(p["echo"] is None and p["rply"] is None for p in mine):
+                    gaps = [b - a for a, b in zip(w, w[1:])]
+                    if any(g2 != min(2 * g1, 4_000_000) for g1, g2 in zip(gaps, gaps[1:])):
+                        ctx.violation("backoff-not-doubling:after-answered-commands" if any(p["echo"] is not None for p in plan_of.values()) else "backoff-not-doubling",
+                                      "the waits between the attempts of an unanswered command do not double (up to 8x) from one attempt to the next",
+                                      {**case, "cmd": i, "gaps_us": gaps}, "schedule")
         # one in flight / start order
         fw = {i: w[0] for i, w in writes.items() if w}
         for j, tj in fw.items():
@@ -263,6 +282,12 @@ def oracle(ctx: Ctx, pid: str, s, tr, st, qs, info) -> None:
                                                    "delayed-write-fails-after-command-ended" if late_fail else "other")
                 ctx.violation(sig, "an exception was left unhandled in the event loop (an internal consistency check tripped)",
                               {**case, "at": e[1]}, "schedule")
+        for e in tr:
+            if e[0] == 4 and "Assertion" in str(e[3]):
+                coincide = any(calls[i] + min(cmds[i]["timeout"], 20_000_000) == e[1] for i in calls)
+                ctx.violation("internal-assertion-handed-to-a-caller:" + ("caller-timeout-coincides-with-the-end-of-its-command" if coincide else "other"),
+                              "one of the sender's internal consistency checks tripped inside send_cmd and reached the caller as an AssertionError",
+                              {**case, "at": e[1], "cmd": e[2]}, "schedule")
         last_conn = [ev[0] for _, ev in s["events"] if ev[0] in ("made", "lost")][-1]
         want = 1 if last_conn == "made" else 0
         crashed = any(e[0] == 5 for e in tr)
